@@ -148,7 +148,7 @@ def plan(tier, seed):
         tasks=tasks,
         run=run_task,
         rule="all statement sequences up to the depth bound (every prefix is closed by the weighted-sum terminal and "
-        "backward()); non-trivial = history with >=1 in-place write while >=2 live tensors share memory",
+        "backward(), and by every live tensor alone as terminal); worlds incl. an F-ordered root and ops fed one tensor several times (einsum / concatenate / matmul / sequences); non-trivial = history with >=1 in-place write while >=2 live tensors share memory",
         bounds={w: d for w, d in BOUNDS[tier]},
         assumptions=[
             "gradient reference = complex-step (h=1e-20) re-execution of the statements on NumPy complex128 shadows; tolerance 1e-9 relative",
